@@ -344,6 +344,12 @@ func init() {
 			}
 			return strings.Contains(str(a[0]), str(a[1]))
 		},
+		"HasSuffix": func(fr *frame, a []value) value {
+			if isSymStr(a[0]) || isSymStr(a[1]) {
+				return boolTerm("(str.suffixof " + strTerm(a[1]) + " " + strTerm(a[0]) + ")")
+			}
+			return strings.HasSuffix(str(a[0]), str(a[1]))
+		},
 		"HasPrefix": func(fr *frame, a []value) value {
 			if isSymStr(a[0]) || isSymStr(a[1]) {
 				return boolTerm("(str.prefixof " + strTerm(a[1]) + " " + strTerm(a[0]) + ")")
